@@ -578,6 +578,16 @@ func addStatsB(c *lib.Ctx, sb *statsB) {
 	c.Count("B_writes_with_nothing_to_write", sb.nothingWritten)
 }
 
+type candB struct {
+	key, path string
+	n         *stateB
+}
+
+type candC struct {
+	key, path string
+	n         *stateC
+}
+
 func partB(c *lib.Ctx, nkeys, maxClock, maxDepth, maxStates int, share time.Duration) {
 	dl := time.Now().Add(share)
 	var timeUp atomic.Bool
@@ -593,6 +603,7 @@ func partB(c *lib.Ctx, nkeys, maxClock, maxDepth, maxStates int, share time.Dura
 	for len(frontier) > 0 && complete && depth < maxDepth {
 		depth++
 		var next []*stateB
+		var cands []candB
 		ok := c.Par(len(frontier), func(i int) {
 			var sb statsB
 			p := frontier[i]
@@ -616,9 +627,7 @@ func partB(c *lib.Ctx, nkeys, maxClock, maxDepth, maxStates int, share time.Dura
 				key := n.key(st)
 				mu.Lock()
 				if !vis[key] {
-					vis[key] = true
-					next = append(next, n)
-					nstates++
+					cands = append(cands, candB{key, fmt.Sprint(n.path), n})
 				}
 				mu.Unlock()
 			}
@@ -627,6 +636,20 @@ func partB(c *lib.Ctx, nkeys, maxClock, maxDepth, maxStates int, share time.Dura
 			mu.Unlock()
 			addStatsB(c, &sb)
 		})
+		// deterministic choice of the representative of every new state
+		sort.Slice(cands, func(i, j int) bool {
+			if cands[i].key != cands[j].key {
+				return cands[i].key < cands[j].key
+			}
+			return cands[i].path < cands[j].path
+		})
+		for _, cd := range cands {
+			if !vis[cd.key] {
+				vis[cd.key] = true
+				next = append(next, cd.n)
+				nstates++
+			}
+		}
 		c.State(len(next))
 		c.Nontrivial(len(next))
 		sort.Slice(next, func(i, j int) bool { return fmt.Sprint(next[i].path) < fmt.Sprint(next[j].path) })
@@ -924,8 +947,8 @@ func judgeWrite(st *stor.Stor, before, after *stateC) (class, msg string) {
 }
 
 func hasEntries(m *meta.Meta, name string) (inSchema, inInfo bool) {
-	m.VerifSchemaEntries(func(n string, _ bool) { inSchema = inSchema || n == name })
-	m.VerifInfoEntries(func(n string, _ bool) { inInfo = inInfo || n == name })
+	m.VerifSchemaEntries(func(n string, _ bool, _ int) { inSchema = inSchema || n == name })
+	m.VerifInfoEntries(func(n string, _ bool, _ int) { inInfo = inInfo || n == name })
 	return
 }
 
@@ -934,8 +957,10 @@ func (s *stateC) key() string {
 	sc, ic, sn, in := s.m.VerifClocks()
 	fmt.Fprintf(&sb, "%d %d %d %d %v %v %v %v|", sc, ic, sn, in, s.persisted, s.f3, s.f4, s.f4pend)
 	var ents []string
-	s.m.VerifSchemaEntries(func(n string, tomb bool) { ents = append(ents, fmt.Sprintf("s:%s/%v", n, tomb)) })
-	s.m.VerifInfoEntries(func(n string, tomb bool) { ents = append(ents, fmt.Sprintf("i:%s/%v", n, tomb)) })
+	s.m.VerifSchemaEntries(func(n string, tomb bool, lm int) { ents = append(ents, fmt.Sprintf("s:%s/%v/%d", n, tomb, lm)) })
+	s.m.VerifInfoEntries(func(n string, tomb bool, lm int) { ents = append(ents, fmt.Sprintf("i:%s/%v/%d", n, tomb, lm)) })
+	sa, ia := s.m.VerifAges()
+	ents = append(ents, fmt.Sprint("ages", sa, ia))
 	for _, t := range tablesC {
 		if a, b, ok := s.m.VerifCreated(t); ok {
 			ents = append(ents, fmt.Sprintf("c:%s/%v/%v", t, a != 0 && a == sc, b != 0 && b == ic))
@@ -952,8 +977,8 @@ func persistedView(st *stor.Stor, s *stateC) string {
 	var ents []string
 	if e := lib.Try(func() {
 		rm := meta.ReadMeta(st, s.so, s.io)
-		rm.VerifSchemaEntries(func(n string, tomb bool) { ents = append(ents, fmt.Sprintf("s:%s/%v", n, tomb)) })
-		rm.VerifInfoEntries(func(n string, tomb bool) { ents = append(ents, fmt.Sprintf("i:%s/%v", n, tomb)) })
+		rm.VerifSchemaEntries(func(n string, tomb bool, lm int) { ents = append(ents, fmt.Sprintf("s:%s/%v/%d", n, tomb, lm)) })
+		rm.VerifInfoEntries(func(n string, tomb bool, lm int) { ents = append(ents, fmt.Sprintf("i:%s/%v/%d", n, tomb, lm)) })
 	}); e != nil {
 		return "panic"
 	}
@@ -1089,6 +1114,7 @@ func partC(c *lib.Ctx, maxClock, maxDepth, maxStates int, share time.Duration) {
 	for len(frontier) > 0 && complete && depth < maxDepth {
 		depth++
 		var next []*stateC
+		var cands []candC
 		ok := c.Par(len(frontier), func(i int) {
 			p := frontier[i]
 			if timeUp.Load() || i%64 == 0 && time.Now().After(dl) {
@@ -1113,13 +1139,24 @@ func partC(c *lib.Ctx, maxClock, maxDepth, maxStates int, share time.Duration) {
 				mu.Lock()
 				maxS, maxI = max(maxS, sn), max(maxI, in)
 				if !vis[key] {
-					vis[key] = true
-					next = append(next, n)
-					nstates++
+					cands = append(cands, candC{key, fmt.Sprint(n.path), n})
 				}
 				mu.Unlock()
 			}
 		})
+		sort.Slice(cands, func(i, j int) bool {
+			if cands[i].key != cands[j].key {
+				return cands[i].key < cands[j].key
+			}
+			return cands[i].path < cands[j].path
+		})
+		for _, cd := range cands {
+			if !vis[cd.key] {
+				vis[cd.key] = true
+				next = append(next, cd.n)
+				nstates++
+			}
+		}
 		c.State(len(next))
 		c.Nontrivial(len(next))
 		sort.Slice(next, func(i, j int) bool { return fmt.Sprint(next[i].path) < fmt.Sprint(next[j].path) })
@@ -1179,7 +1216,7 @@ func run(c *lib.Ctx) {
 		partB(c, 3, 6, 14, 1_500_000, sec(0, 130))
 		lap("part B (3 keys)")
 	}
-	partC(c, lib.Pick(c, 4, 6), lib.Pick(c, 13, 16), lib.Pick(c, 200_000, 2_000_000), sec(25, 250))
+	partC(c, lib.Pick(c, 4, 6), lib.Pick(c, 10, 14), lib.Pick(c, 200_000, 2_000_000), sec(25, 250))
 	lap("part C")
 }
 
